@@ -548,7 +548,299 @@ fn c15(seed: u64, case: u64, out: &Out) {
 // ====================================================================== C20
 static RESUME_EVENTS: Mutex<Vec<(u64, u64, u64)>> = Mutex::new(Vec::new()); // (token, was_registered, mono_ns)
 
+/// Interest histories (C20): the same descriptor is waited on for reading and writing, loses one interest or all of them,
+/// is handed to another coroutine, ... and each wait that is made ready must still be woken by the readiness event itself.
+#[derive(Clone, Copy, Debug, PartialEq, Eq)]
+enum H {
+    R,    // wait for read readiness, made ready 100+ ms later
+    W,    // wait for write readiness on a full buffer, drained 100+ ms later
+    Rt,   // wait for read readiness, 120 ms timeout, nothing arrives
+    Wt,   // wait for write readiness on a full buffer, 120 ms timeout, nobody drains
+    DelR, // EventLoops::del_read_event (what shutdown(SHUT_RD) does)
+    DelW, // EventLoops::del_write_event (what shutdown(SHUT_WR) does)
+    Del,  // EventLoops::del_event (what close does)
+}
+
+fn c20_hist(seed: u64, case: u64, out: &Out) {
+    use open_coroutine_core::common::constants::{SyscallName, SyscallState};
+    use open_coroutine_core::scheduler::SchedulableCoroutine;
+    let mut rng = Rng::for_case(seed ^ 0xC20A, case);
+    // every other history case adds one socket whose two directions are waited on by two coroutines at the same time
+    let duplex = case % 8 == 5;
+    let nsock = rng.usize(1, 4);
+    // per socket: 1-3 segments, each run by a fresh coroutine (hand-over of the descriptor), 2-4 steps each
+    let plans: Vec<Vec<Vec<H>>> = (0..nsock)
+        .map(|_| {
+            (0..rng.usize(1, 3))
+                .map(|_| (0..rng.usize(2, 4)).map(|_| *rng.pick(&[H::R, H::R, H::W, H::W, H::Rt, H::Wt, H::DelR, H::DelW, H::Del])).collect())
+                .collect()
+        })
+        .collect();
+    out.begin(case, jobj! {"mode" => "interest histories", "sockets" => nsock,
+        "duplex_socket" => if duplex {"one more socket: coroutine A waits for read readiness and coroutine B for write readiness of the same descriptor at the same time; read side made ready first, write side 300 ms later"} else {"none"},
+        "histories" => plans.iter().map(|p| p.iter().map(|seg| format!("{seg:?}")).collect::<Vec<_>>().join(" -> hand over to a new coroutine -> ")).collect::<Vec<_>>(),
+        "legend" => "R/W: wait made ready 100+ ms later (3 s timeout); Rt/Wt: wait that runs into its 120 ms timeout; DelR/DelW/Del: interest removed through EventLoops::del_*_event"});
+    init(1, 64, 0, 0);
+    fn observer(kind: &'static str, a: u64, b: u64, _: &str) {
+        if kind == "resume" {
+            RESUME_EVENTS.lock().unwrap().push((a, b, mono_ns()));
+        }
+    }
+    open_coroutine_core::verif::set_observer(Some(observer));
+    let mut socks = vec![];
+    for _ in 0..nsock {
+        let mut sv = [0; 2];
+        assert_eq!(0, unsafe { libc::socketpair(libc::AF_UNIX, libc::SOCK_STREAM, 0, sv.as_mut_ptr()) });
+        for fd in sv {
+            unsafe {
+                let fl = libc::fcntl(fd, libc::F_GETFL);
+                libc::fcntl(fd, libc::F_SETFL, fl | libc::O_NONBLOCK);
+            }
+        }
+        socks.push(sv);
+    }
+    // (sock, seg, step, kind, co_id, wait_start, wait_return)
+    type Rec = (usize, usize, usize, H, u64, u64, u64);
+    let log: Arc<Mutex<Vec<Rec>>> = Arc::default();
+    let waiting_now: Arc<Mutex<std::collections::HashMap<usize, (usize, usize, H, u64)>>> = Arc::default();
+    let mut ready_at: std::collections::HashMap<(usize, usize, usize), u64> = std::collections::HashMap::new();
+    let seg_done: Arc<Vec<AtomicUsize>> = Arc::new((0..nsock).map(|_| AtomicUsize::new(0)).collect());
+    let api_errors: Arc<Mutex<Vec<String>>> = Arc::default();
+    let mut submitted = vec![0usize; nsock];
+    let mut hs = vec![];
+    // duplex socket: (co_id, wait_start, wait_return) of the reader and of the writer
+    let dup_log: Arc<Mutex<[Option<(u64, u64, u64)>; 2]>> = Arc::default();
+    let mut dup_sv = [0; 2];
+    if duplex {
+        assert_eq!(0, unsafe { libc::socketpair(libc::AF_UNIX, libc::SOCK_STREAM, 0, dup_sv.as_mut_ptr()) });
+        for fd in dup_sv {
+            unsafe {
+                let fl = libc::fcntl(fd, libc::F_GETFL);
+                libc::fcntl(fd, libc::F_SETFL, fl | libc::O_NONBLOCK);
+            }
+        }
+        let fd = dup_sv[0];
+        let junk = [3u8; 65536];
+        while unsafe { libc::write(fd, junk.as_ptr().cast(), junk.len()) } > 0 {}
+        for dir in 0..2usize {
+            let dup_log = dup_log.clone();
+            hs.push(EventLoops::submit_task(None, move |_| {
+                let co = SchedulableCoroutine::current().expect("in coroutine");
+                let id = co.id();
+                let read = dir == 0;
+                co.syscall((), if read { SyscallName::recv } else { SyscallName::send }, SyscallState::Executing).expect("enter syscall state");
+                let t_start = mono_ns();
+                let mut waits = 0;
+                let t_ret = loop {
+                    let _ = if read { EventLoops::wait_read_event(fd, Some(Duration::from_secs(3))) } else { EventLoops::wait_write_event(fd, Some(Duration::from_secs(3))) };
+                    let t = mono_ns();
+                    waits += 1;
+                    let mut pfd = libc::pollfd { fd, events: if read { libc::POLLIN } else { libc::POLLOUT }, revents: 0 };
+                    if unsafe { libc::poll(&raw mut pfd, 1, 0) } == 1 || waits >= 4 || t - t_start > 8_000_000_000 {
+                        break t;
+                    }
+                };
+                let co = SchedulableCoroutine::current().expect("in coroutine");
+                let _ = co.running();
+                dup_log.lock().unwrap()[dir] = Some((id, t_start, t_ret));
+                Some(dir)
+            }, None, None));
+        }
+    }
+    let mut dup_ready = [0u64; 2];
+    let t_all = Instant::now();
+    let total_steps: usize = plans.iter().map(|p| p.iter().map(Vec::len).sum::<usize>()).sum();
+    loop {
+        // hand-over: the next segment of a socket starts when the previous one has finished
+        for s in 0..nsock {
+            let done = seg_done[s].load(Ordering::SeqCst);
+            if submitted[s] == done && done < plans[s].len() {
+                let g = done;
+                submitted[s] += 1;
+                let steps = plans[s][g].clone();
+                let fd = socks[s][0];
+                let (log, waiting_now, seg_done, api_errors) = (log.clone(), waiting_now.clone(), seg_done.clone(), api_errors.clone());
+                hs.push(EventLoops::submit_task(None, move |_| {
+                    let co = SchedulableCoroutine::current().expect("in coroutine");
+                    let id = co.id();
+                    for (k, h) in steps.iter().enumerate() {
+                        match *h {
+                            H::R | H::Rt | H::W | H::Wt => {
+                                let read = matches!(*h, H::R | H::Rt);
+                                if read {
+                                    // like a hooked recv: only wait once the socket has nothing to read
+                                    let mut b = [0u8; 256];
+                                    while unsafe { libc::read(fd, b.as_mut_ptr().cast(), 256) } > 0 {}
+                                } else {
+                                    // like a hooked send: only wait once the send buffer is full
+                                    let junk = [3u8; 65536];
+                                    while unsafe { libc::write(fd, junk.as_ptr().cast(), junk.len()) } > 0 {}
+                                }
+                                let name = if read { SyscallName::recv } else { SyscallName::send };
+                                co.syscall((), name, SyscallState::Executing).expect("enter syscall state");
+                                let limit = if matches!(*h, H::R | H::W) { Duration::from_secs(3) } else { Duration::from_millis(120) };
+                                let t_start = mono_ns();
+                                waiting_now.lock().unwrap().insert(fd as usize, (g, k, *h, t_start));
+                                let mut waits = 0;
+                                let t_ret = loop {
+                                    let _ = if read { EventLoops::wait_read_event(fd, Some(limit)) } else { EventLoops::wait_write_event(fd, Some(limit)) };
+                                    let t = mono_ns();
+                                    waits += 1;
+                                    // like a hooked call: a wake-up that was caused by the other direction of the same socket is followed by another wait
+                                    let mut pfd = libc::pollfd { fd, events: if read { libc::POLLIN } else { libc::POLLOUT }, revents: 0 };
+                                    let ready = unsafe { libc::poll(&raw mut pfd, 1, 0) } == 1;
+                                    if ready || !matches!(*h, H::R | H::W) || waits >= 4 || t - t_start > 8_000_000_000 {
+                                        break t;
+                                    }
+                                };
+                                waiting_now.lock().unwrap().remove(&(fd as usize));
+                                let co = SchedulableCoroutine::current().expect("in coroutine");
+                                let _ = co.running();
+                                log.lock().unwrap().push((s, g, k, *h, id, t_start, t_ret));
+                                if *h == H::W {
+                                    // the drain raises several writable edges: let the tail pass before the next step
+                                    let _ = EventLoops::wait_event(Some(Duration::from_millis(40)));
+                                }
+                            }
+                            H::DelR | H::DelW | H::Del => {
+                                let r = match *h {
+                                    H::DelR => EventLoops::del_read_event(fd),
+                                    H::DelW => EventLoops::del_write_event(fd),
+                                    _ => EventLoops::del_event(fd),
+                                };
+                                if let Err(e) = r {
+                                    api_errors.lock().unwrap().push(format!("socket {s} segment {g} step {k} {h:?}: {e}"));
+                                }
+                                log.lock().unwrap().push((s, g, k, *h, id, 0, 0));
+                            }
+                        }
+                    }
+                    seg_done[s].fetch_add(1, Ordering::SeqCst);
+                    Some(s)
+                }, None, None));
+            }
+        }
+        // make the descriptors of R / W waits ready 100+ ms after the wait began
+        let snapshot: Vec<(usize, (usize, usize, H, u64))> = waiting_now.lock().unwrap().iter().map(|(k, v)| (*k, *v)).collect();
+        for (fd, (g, k, h, t_start)) in snapshot {
+            let Some(s) = socks.iter().position(|sv| sv[0] as usize == fd) else { continue };
+            if !matches!(h, H::R | H::W) || ready_at.contains_key(&(s, g, k)) || mono_ns().saturating_sub(t_start) < 100_000_000 {
+                continue;
+            }
+            ready_at.insert((s, g, k), mono_ns());
+            unsafe {
+                if h == H::W {
+                    let mut sink = vec![0u8; 1 << 20];
+                    while libc::read(socks[s][1], sink.as_mut_ptr().cast(), sink.len()) > 0 {}
+                } else {
+                    let m = [1u8; 4];
+                    libc::write(socks[s][1], m.as_ptr().cast(), 4);
+                }
+            }
+        }
+        if duplex {
+            let el = t_all.elapsed();
+            if dup_ready[0] == 0 && el > Duration::from_millis(250) {
+                dup_ready[0] = mono_ns();
+                let m = [1u8; 4];
+                unsafe { libc::write(dup_sv[1], m.as_ptr().cast(), 4) };
+            }
+            if dup_ready[1] == 0 && el > Duration::from_millis(550) {
+                dup_ready[1] = mono_ns();
+                let mut sink = vec![0u8; 1 << 20];
+                while unsafe { libc::read(dup_sv[1], sink.as_mut_ptr().cast(), sink.len()) } > 0 {}
+            }
+        }
+        let dup_done = !duplex || dup_log.lock().unwrap().iter().all(Option::is_some);
+        if ((0..nsock).all(|s| seg_done[s].load(Ordering::SeqCst) >= plans[s].len()) && dup_done) || t_all.elapsed() > Duration::from_secs(40) {
+            break;
+        }
+        std::thread::sleep(Duration::from_millis(5));
+    }
+    let l = log.lock().unwrap().clone();
+    let evs = RESUME_EVENTS.lock().unwrap().clone();
+    let mut viol: Option<(String, String)> = None;
+    let (mut worst, mut woken_by_event, mut judged) = (0u64, 0usize, 0usize);
+    for (s, g, k, h, id, _t_start, t_ret) in &l {
+        if !matches!(h, H::R | H::W) {
+            continue;
+        }
+        judged += 1;
+        // what happened to this descriptor's interests before this wait, in the words of a signature
+        let before: Vec<H> = plans[*s].iter().enumerate().flat_map(|(gi, seg)| seg.iter().enumerate().filter(move |(ki, _)| gi < *g || (gi == *g && ki < k)).map(|(_, h)| *h).collect::<Vec<_>>()).collect();
+        let handed = *g > 0;
+        let dropped_one = before.iter().any(|b| matches!(b, H::DelR | H::DelW));
+        let ctx = format!("{}{}{}", if *h == H::R { "read-wait" } else { "write-wait" }, if dropped_one { "-after-one-interest-was-removed" } else { "" }, if handed { "-descriptor-handed-to-another-coroutine" } else { "" });
+        let Some(t_ready) = ready_at.get(&(*s, *g, *k)) else {
+            viol = viol.or(Some((format!("waiter-returned-before-readiness/{ctx}"), format!("socket {s} history {:?}: step {k} of segment {g} returned although its descriptor had not been made ready", plans[*s]))));
+            continue;
+        };
+        if t_ret < t_ready {
+            viol = viol.or(Some((format!("waiter-returned-before-readiness/{ctx}"), format!("socket {s} history {:?}: step {k} of segment {g}", plans[*s]))));
+            continue;
+        }
+        let lat = t_ret - t_ready;
+        worst = worst.max(lat);
+        let hit = evs.iter().any(|(tok, reg, t)| tok == id && *reg == 1 && *t >= *t_ready && *t <= *t_ret + 1_000_000);
+        if hit {
+            woken_by_event += 1;
+        }
+        if lat > 1_000_000_000 {
+            viol = viol.or(Some((format!("readiness-did-not-wake-the-waiter/{ctx}"), format!("socket {s} history {:?}: the {h:?} wait at step {k} of segment {g} (coroutine id {id:#x}) returned {} ms after its descriptor became ready (its own 3000 ms timeout); tokens the loop tried to resume in that window: {:x?}", plans[*s], lat / 1_000_000,
+                evs.iter().filter(|(_, _, t)| *t >= *t_ready && *t <= *t_ret).map(|e| e.0).take(6).collect::<Vec<_>>()))));
+        } else if !hit {
+            viol = viol.or(Some((format!("woken-without-a-readiness-event-for-its-token/{ctx}"), format!("socket {s} history {:?}: the {h:?} wait at step {k} of segment {g} (coroutine id {id:#x}) returned {} us after readiness but the loop's resume-by-token path never saw its token as registered", plans[*s], lat / 1000))));
+        }
+    }
+    let mut dup_obs = vec![];
+    if duplex {
+        let dl = *dup_log.lock().unwrap();
+        for dir in 0..2 {
+            let what = if dir == 0 { "reader" } else { "writer" };
+            let ctx = "two-coroutines-wait-on-the-two-directions-of-one-descriptor";
+            match dl[dir] {
+                None => viol = viol.or(Some((format!("waiter-never-returned/{ctx}"), format!("the {what} of the duplex socket did not return within 40 s")))),
+                Some((id, _t_start, t_ret)) => {
+                    let t_ready = dup_ready[dir];
+                    if t_ready == 0 || t_ret < t_ready {
+                        viol = viol.or(Some((format!("waiter-returned-before-readiness/{ctx}"), format!("the {what} of the duplex socket"))));
+                        continue;
+                    }
+                    let lat = t_ret - t_ready;
+                    let hit = evs.iter().any(|(tok, reg, t)| *tok == id && *reg == 1 && *t >= t_ready && *t <= t_ret + 1_000_000);
+                    dup_obs.push(format!("{what}: woken {} ms after readiness, matching readiness event: {hit}", lat / 1_000_000));
+                    if lat > 1_000_000_000 {
+                        viol = viol.or(Some((format!("readiness-did-not-wake-the-waiter/{ctx}"), format!("the {what} (coroutine id {id:#x}) returned {} ms after its direction became ready (its own 3000 ms timeout) while another coroutine waits on the other direction of the same descriptor; tokens the loop tried to resume in that window: {:x?}", lat / 1_000_000,
+                            evs.iter().filter(|(_, _, t)| *t >= t_ready && *t <= t_ret).map(|e| e.0).take(6).collect::<Vec<_>>()))));
+                    } else if !hit {
+                        viol = viol.or(Some((format!("woken-without-a-readiness-event-for-its-token/{ctx}"), format!("the {what} (coroutine id {id:#x}) returned {} us after readiness without a readiness event for its token", lat / 1000))));
+                    }
+                }
+            }
+        }
+    }
+    if viol.is_none() && l.len() < total_steps {
+        viol = Some(("waiter-never-returned/interest-history".into(), format!("{} of {total_steps} steps completed within 40 s", l.len())));
+    }
+    let errs = api_errors.lock().unwrap().clone();
+    let obs = jobj! {"steps_completed" => l.len(), "ready_waits_judged" => judged, "waits_woken_by_a_matching_readiness_event" => woken_by_event, "worst_wake_latency_ms" => worst / 1_000_000,
+        "resume_events_observed" => evs.len(), "resume_events_with_unknown_token" => evs.iter().filter(|e| e.1 == 0).count(), "interest_removal_errors" => errs, "duplex_socket" => dup_obs};
+    let fp = format!("hist|{duplex}|{:?}", plans);
+    std::mem::forget(hs);
+    if viol.as_ref().is_some_and(|v| v.0.starts_with("readiness-did-not-wake") || v.0.starts_with("waiter-never-returned")) && wl_core::overloaded() {
+        out.end(case, Verdict::Inconclusive, "machine-overloaded-during-timing-case", false, &fp, obs, &viol.map(|v| v.1).unwrap_or_default());
+        return;
+    }
+    match viol {
+        Some((k, d)) => out.end(case, Verdict::Violated, &format!("C20/{k}"), true, &fp, obs, &d),
+        None => out.end(case, Verdict::Held, "", woken_by_event > 0, &fp, obs, ""),
+    }
+}
+
 fn c20(seed: u64, case: u64, out: &Out) {
+    if case % 4 == 1 {
+        return c20_hist(seed, case, out);
+    }
     use open_coroutine_core::common::constants::{SyscallName, SyscallState};
     use open_coroutine_core::scheduler::SchedulableCoroutine;
     let mut rng = Rng::for_case(seed ^ 0xC20, case);
